@@ -84,7 +84,15 @@ _recent_registers: list[int] = []
 def ascii_text(rng, max_len: int = 18, min_len: int = 0, lengths=None) -> str:
     r = rng.random()
     if r < 0.25 and not lengths:
-        return rng.choice(DOCUMENTED_TEXT)[:max_len]
+        t = rng.choice(DOCUMENTED_TEXT)
+        if rng.random() < 0.3:
+            # the documented text with its last digit(s) counted on (another version / type / serial number of the same family)
+            i = len(t) - 1
+            while i >= 0 and not t[i].isdigit():
+                i -= 1
+            if i >= 0:
+                t = t[:i] + str((int(t[i]) + rng.randint(1, 9)) % 10) + t[i + 1 :]
+        return t[:max_len]
     if r < 0.45 and r >= 0.33 and not lengths:
         # type numbers: three leading digits carry a meaning for some vendors (e.g. 685... = current-transformer meter)
         return (str(rng.choice((rng.randint(600, 699), 685, 684, 655, 656, 585, 100, 999))) + "".join(rng.choice("0123456789ABN") for _ in range(rng.choice((0, 1, 9, 15)))))[:max_len]
@@ -455,7 +463,8 @@ def kamstrup_case(rng, layout: str | None = None, ct: bool | None = None) -> Cas
         mtype = "684" + mtype[3:]
     is_ct = mtype.startswith("685")
     tags.append("ct_meter" if is_ct else "non_ct_meter")
-    ver = rng.choice(("Kamstrup_V0001", ascii_text(rng, 14, 1)))
+    # the list version as documented, as a later firmware might count it, or any text
+    ver = rng.choice(("Kamstrup_V0001", "Kamstrup_V0001", "Kamstrup_V%04d" % rng.choice((0, 2, 3, 10, 100, 9999)), "Kamstrup_V2", "KAMSTRUP_V0001", ascii_text(rng, 14, 1)))
     expect = {"meter_manufacturer": ("str", "Kamstrup"), "list_ver_id": ("str", ver)}
     pairs = []
     for it in items:
